@@ -27,6 +27,7 @@ type Solver struct {
 	nufs    int
 	naxioms int
 	softMS  int
+	curTimeout int
 	fastMS  int // budget of the first, incremental attempt (<= softMS); unknowns escalate to fresh one-shot solvers
 	// stats
 	Queries   int
@@ -79,6 +80,7 @@ func (s *Solver) start() {
 		s.send(fmt.Sprintf("(set-option :tlimit-per %d)", s.softMS))
 	} else {
 		s.send(fmt.Sprintf("(set-option :timeout %d)", s.fastMS))
+		s.curTimeout = s.fastMS
 		s.send("(set-option :model.completion true)")
 	}
 }
@@ -192,9 +194,16 @@ func (s *Solver) Check(assertions []*Term, wantModel []*Term) (res string, model
 	s.send("(check-sat)")
 	s.Queries++
 	t0 := time.Now()
+	// Nonlinear real arithmetic profits from a short incremental attempt
+	// followed by fresh one-shot solvers; bit-vector / FP queries are best
+	// left to the incremental core for the whole budget.
 	firstMS := s.fastMS
-	if strings.Contains(s.bin, "cvc5") {
+	if strings.Contains(s.bin, "cvc5") || s.tt.realVars == 0 {
 		firstMS = s.softMS
+	}
+	if !strings.Contains(s.bin, "cvc5") && firstMS != s.curTimeout {
+		s.send(fmt.Sprintf("(set-option :timeout %d)", firstMS))
+		s.curTimeout = firstMS
 	}
 	line, ok := s.readLineTimeout(time.Duration(firstMS)*time.Millisecond*2 + 5*time.Second)
 	dt := time.Since(t0)
